@@ -5,7 +5,8 @@
 From AQ Require Import lib.Base lib.Tok model.RangeSet model.RecBase model.Pacer model.Reno model.Cubic
   model.Recovery model.RecoveryFloat gen.C08Consts
   proofs.RecoveryLemmas proofs.RecoveryProofs proofs.RecoveryPres proofs.RenoProofs proofs.CubicProofs
-  proofs.C08Theorems.
+  proofs.C08Theorems proofs.FlightBudget proofs.CubicFloor.
+From AQ Require gen.C13Consts model.Builder proofs.BuilderProofs proofs.BuilderFlight proofs.BuilderFlightAE.
 
 (* bytes_in_flight = sum of sent_bytes over tracked in-flight packets of all spaces;
    ack_eliciting_in_flight = number of tracked ack-eliciting packets, per space; keys unique *)
@@ -119,3 +120,116 @@ Theorem executable_instance_reno :
   NoDup (map evkey evs) /\ 2 * mss <= rn_cwnd (r_cc st).
 Proof. exact float_instance_reno. Qed.
 Print Assumptions executable_instance_reno.
+
+(* CUBIC, executable PrimFloat instance, NO FloatAnomaly guard: the floor holds on every history as long as no
+   int(inf / nan) occurred (cb_anom: in Python an OverflowError / ValueError would have escaped).  Proved from the
+   IEEE-754 semantics of the primitive floats (Flocq + the standard library's FloatAxioms; proofs/FloatMono.v):
+   rounding and truncation are monotone, float(int) is correctly rounded, products / quotients of non-negative floats
+   are non-negative, int(float(w) * 1.5) >= w.  max_datagram_size < 2^52 makes the floor itself a binary64 number. *)
+Theorem cwnd_floor_cubic :
+  forall n irtt mss pcav o ops st evs,
+  0 < mss < 2 ^ 52 -> Forall (op_nn (T:=PrimFloat.float)) ops ->
+  run FF (cubic_cc FF) (rec_init FF n irtt mss pcav (cubic_init FF mss o)) ops = (st, evs) ->
+  cb_anom (r_cc st) = false ->
+  K_MINIMUM_WINDOW * mss <= cb_cwnd (r_cc st) /\ K_MINIMUM_WINDOW = 2.
+Proof. exact cwnd_floor_cubic_ff. Qed.
+Print Assumptions cwnd_floor_cubic.
+
+(* ---------- flight budget (last sentence of the property) ----------
+   Builder side (model/Builder.v, C13's model of QuicPacketBuilder): with max_flight_bytes = mf, for every
+   configuration and every op history respecting the caller discipline of connection.py (BuilderFlight.fl_disciplined:
+   ACK / CONNECTION_CLOSE frames first in a packet, in-flight frame bodies sized with remaining_flight_space, no
+   one-byte ACK-only packet), the sent_bytes of ALL packets marked in flight -- returned by flush() or still queued --
+   are at most max(0, mf). *)
+Theorem flight_le_budget :
+  forall (c : Builder.cfg) (mf pn : Z) (ops : list Builder.op),
+    Builder.c_max_flight c = Some mf -> BuilderProofs.wf_cfg c -> BuilderProofs.crypto_fits c ->
+    BuilderFlight.fl_disciplined c (Builder.init_st c pn) ops = true ->
+    BuilderFlight.fl_sum (snd (BuilderFlight.run_pk c (Builder.init_st c pn) ops)) +
+    BuilderFlight.fl_sum (Builder.b_pkts (fst (BuilderFlight.run_pk c (Builder.init_st c pn) ops))) <= Z.max 0 mf.
+Proof. exact BuilderFlight.flight_le_budget_all. Qed.
+Print Assumptions flight_le_budget.
+
+(* the builder's own account _flight_bytes (packets in flight + datagram-level Initial padding, i.e. what is on the
+   wire) obeys the same bound and dominates the in-flight bytes of the packets *)
+Theorem flight_wire_le_budget :
+  forall (c : Builder.cfg) (mf pn : Z) (ops : list Builder.op),
+    Builder.c_max_flight c = Some mf -> BuilderProofs.wf_cfg c -> BuilderProofs.crypto_fits c ->
+    BuilderFlight.fl_disciplined c (Builder.init_st c pn) ops = true ->
+    0 <= Builder.b_flight (fst (Builder.run c (Builder.init_st c pn) ops)) <= Z.max 0 mf /\
+    (Builder.b_dginit (fst (Builder.run c (Builder.init_st c pn) ops)) = true ->
+     BuilderFlight.fl_sum (snd (BuilderFlight.run_pk c (Builder.init_st c pn) ops)) +
+     BuilderFlight.fl_sum (Builder.b_pkts (fst (Builder.run c (Builder.init_st c pn) ops)))
+       <= Builder.b_flight (fst (Builder.run c (Builder.init_st c pn) ops))).
+Proof. exact BuilderFlight.flight_wire_le_budget. Qed.
+Print Assumptions flight_wire_le_budget.
+
+(* the variant that matches the property's wording "apart from acknowledgement-only packets": WITHOUT the third flight
+   clause (so one-byte ACK / CLOSE-only packets, which _end_packet pads and marks in flight outside any flight check, are
+   allowed) the ACK-ELICITING in-flight packets still obey the budget *)
+Theorem flight_le_budget_ack_eliciting :
+  forall (c : Builder.cfg) (mf pn : Z) (ops : list Builder.op),
+    Builder.c_max_flight c = Some mf -> BuilderProofs.wf_cfg c -> BuilderProofs.crypto_fits c ->
+    BuilderFlightAE.fl12_disciplined c (Builder.init_st c pn) ops = true ->
+    BuilderFlightAE.ae_sum (snd (BuilderFlight.run_pk c (Builder.init_st c pn) ops)) +
+    BuilderFlightAE.ae_sum (Builder.b_pkts (fst (BuilderFlight.run_pk c (Builder.init_st c pn) ops))) <= Z.max 0 mf.
+Proof. exact BuilderFlightAE.flight_le_budget_ack_eliciting. Qed.
+Print Assumptions flight_le_budget_ack_eliciting.
+
+(* Composition with on_packet_sent, for ANY recovery state st (so after any history), any controller satisfying
+   cc_spec and any budget mf: one datagrams_to_send call (builder session, then on_packet_sent for every packet built)
+   adds exactly the in-flight bytes of the packets to bytes_in_flight, and that is at most max(0, mf). *)
+Theorem flight_budget :
+  forall (T C : Type) (cc : ccops T C), cc_spec cc ->
+  forall (st : rec (T:=T) (C:=C)) sp now c mf pn ops,
+  (forall t, (sp t < length (r_spaces st))%nat) ->
+  Builder.c_max_flight c = Some mf -> BuilderProofs.wf_cfg c -> BuilderProofs.crypto_fits c ->
+  BuilderFlight.fl_disciplined c (Builder.init_st c pn) ops = true ->
+  cc_bif cc (r_cc (register cc sp now st (built c pn ops))) =
+    cc_bif cc (r_cc st) + BuilderFlight.fl_sum (built c pn ops) /\
+  cc_bif cc (r_cc (register cc sp now st (built c pn ops))) <= cc_bif cc (r_cc st) + Z.max 0 mf.
+Proof. exact (@flight_budget_gen). Qed.
+Print Assumptions flight_budget.
+
+(* no probe pending: max_flight_bytes = congestion_window - bytes_in_flight (both read before the call), hence
+   bytes_in_flight after the call <= max(congestion_window, bytes_in_flight) as they were before the call *)
+Theorem flight_budget_window :
+  forall (T C : Type) (cc : ccops T C), cc_spec cc ->
+  forall (st : rec (T:=T) (C:=C)) sp now c pn ops,
+  (forall t, (sp t < length (r_spaces st))%nat) ->
+  Builder.c_max_flight c = Some (cc_cwnd cc (r_cc st) - cc_bif cc (r_cc st)) ->
+  BuilderProofs.wf_cfg c -> BuilderProofs.crypto_fits c ->
+  BuilderFlight.fl_disciplined c (Builder.init_st c pn) ops = true ->
+  cc_bif cc (r_cc (register cc sp now st (built c pn ops))) <= Z.max (cc_cwnd cc (r_cc st)) (cc_bif cc (r_cc st)).
+Proof. exact (@FlightBudget.flight_budget_window). Qed.
+Print Assumptions flight_budget_window.
+
+(* a probe is pending: the budget is raised to one datagram when it is below ("one probe datagram per timeout") *)
+Theorem flight_budget_probe :
+  forall (T C : Type) (cc : ccops T C), cc_spec cc ->
+  forall (st : rec (T:=T) (C:=C)) sp now c pn ops,
+  (forall t, (sp t < length (r_spaces st))%nat) ->
+  Builder.c_max_flight c = Some (Z.max (cc_cwnd cc (r_cc st) - cc_bif cc (r_cc st)) (Builder.c_mds c)) ->
+  0 <= Builder.c_mds c ->
+  BuilderProofs.wf_cfg c -> BuilderProofs.crypto_fits c ->
+  BuilderFlight.fl_disciplined c (Builder.init_st c pn) ops = true ->
+  cc_bif cc (r_cc (register cc sp now st (built c pn ops)))
+    <= Z.max (cc_cwnd cc (r_cc st)) (cc_bif cc (r_cc st) + Builder.c_mds c).
+Proof. exact (@FlightBudget.flight_budget_probe). Qed.
+Print Assumptions flight_budget_probe.
+
+(* ... instantiated for both controllers of the code *)
+Theorem flight_budget_reno_and_cubic :
+  forall (T : Type) (F : fops T) sp now c pn ops,
+  BuilderProofs.wf_cfg c -> BuilderProofs.crypto_fits c ->
+  BuilderFlight.fl_disciplined c (Builder.init_st c pn) ops = true ->
+  (forall st : rec (T:=T) (C:=reno (T:=T)),
+     (forall t, (sp t < length (r_spaces st))%nat) ->
+     Builder.c_max_flight c = Some (rn_cwnd (r_cc st) - rn_bif (r_cc st)) ->
+     rn_bif (r_cc (register (reno_cc F) sp now st (built c pn ops))) <= Z.max (rn_cwnd (r_cc st)) (rn_bif (r_cc st))) /\
+  (forall st : rec (T:=T) (C:=cubic (T:=T)),
+     (forall t, (sp t < length (r_spaces st))%nat) ->
+     Builder.c_max_flight c = Some (cb_cwnd (r_cc st) - cb_bif (r_cc st)) ->
+     cb_bif (r_cc (register (cubic_cc F) sp now st (built c pn ops))) <= Z.max (cb_cwnd (r_cc st)) (cb_bif (r_cc st))).
+Proof. exact flight_budget_reno_cubic. Qed.
+Print Assumptions flight_budget_reno_and_cubic.
